@@ -1,4 +1,4 @@
-import SifVerif.Proofs.Crash
+import SifVerif.Proofs.Torn
 /-!
 # C09 — interrupted modifications never damage other objects
 
@@ -24,12 +24,17 @@ combination, set-primary, set-metadata, set-OCI-digest; sign = a sequence of add
   present: descriptor in place and content equal to the input.
 * `C09_error_returned` — a failing call makes the operation return the I/O error.
 
-**Partial** (`C09_loads_partial` is the conjunction above): interruptions that tear the
-*descriptor-table or header write itself* are not covered by a theorem.  The full statement is
-false of the code as it stands — finding D11: a free slot holding leftover bytes with a negative
-offset, torn after its `used` byte, is refused by `LoadContainer` — and for images without such
-leftovers it is decided by the crash campaign (every torn prefix the harness enumerates is loaded
-by the real library), not by proof.
+* `C09_every_interruption` — **every** interruption, the descriptor-table and header writes torn
+  at any byte included: the file loads and every slot the operation leaves alone holds the same
+  descriptor, for images with *clean slots* (`CleanSlots`: every slot, in use or free, holds a
+  non-negative offset and size).  Clean slots are preserved by every operation (`clean_plan`) and
+  hold for everything the library writes (freed slots are zeroed).  Without that hypothesis the
+  statement is false of the code — finding D11: a foreign image whose free slot holds leftover
+  bytes with a negative offset, torn after its `used` byte, is refused by `LoadContainer`.
+  The proof is byte-level (`Proofs/Torn.lean`): a byte mix of two encodings of non-negative int64
+  values is non-negative (`decS8_mix_nonneg`), so a half-written descriptor stays loadable
+  (`mix_loadable`); a mix of two headers that agree on magic, version, count, table offset and
+  table size decodes to those values (`decHdr_mix`).
 -/
 namespace Sif
 
@@ -288,6 +293,115 @@ theorem C09_add_atomic (s : Img) (W : WF s) (P : Placed s) (R : Ranges s) (di : 
               (by simp only [writeAt_length]; unfold regHi; omega) hfs h2.toCrashOf
             rw [f2, hlen, hlo]
             exact slice_writeAt_same _ _ _
+
+/-- the flush phase under **every** interruption, torn table and header writes included, for
+    images whose slots are clean (`CleanSlots`: every slot, in use or free, holds a non-negative
+    offset and size — true of everything the library writes; finding D11 is exactly its failure) -/
+theorem flush_crash_full (s : Img) (W : WF s) (R : Ranges s) (s' : Img) (M' : WFmem s') (Rn : Ranges s')
+    (hdd : s'.h.doff = s.h.doff) (hll : s'.rds.length = s.rds.length) (hds : s'.h.dsize = s.h.dsize)
+    (hne : s.rds ≠ []) (Cold : CleanSlots s.rds) (Cnew : CleanSlots s'.rds)
+    (s1 st' : Store) (S1 : SyncedAt s.h s.rds s1.buf) (hc : CrashOf s1 (flushCalls s') st') :
+    ∃ s2, loadContainer st' = .ok s2 ∧
+      ∀ (i : Nat) (d : RawDesc), s.rds[i]? = some d → s'.rds[i]? = some d → s2.rds[i]? = some d := by
+  have h128 := W.doff
+  have h0 : ¬ s'.h.doff < 0 := by omega
+  have htl := S1.tlen hne
+  -- interruptions between calls
+  have between : ∀ st2, CrashBetween s1 (flushCalls s') st2 →
+      ∃ s2, loadContainer st2 = .ok s2 ∧
+        ∀ (i : Nat) (d : RawDesc), s.rds[i]? = some d → s'.rds[i]? = some d → s2.rds[i]? = some d := by
+    intro st2 hb
+    obtain ⟨h, rds, hl, hcase⟩ := flush_phase_loads s W R s' M' Rn hdd hll s1 st2 S1 hb
+    refine ⟨_, hl, fun i d hd hd' => ?_⟩
+    rcases hcase with ⟨_, e⟩ | ⟨e, _⟩
+    · simp only [e]; exact hd
+    · simp only [e]; exact hd'
+  simp only [flushCalls, writeDescriptorsCalls, writeHeaderCalls, List.cons_append, List.nil_append] at hc between
+  cases hc with
+  | stop => exact between _ (.stop _ _)
+  | next _ a1 _ _ _ c1 r1 =>
+    have c1' := c1
+    simp only [Store.call, Store.seekStart, h0, ↓reduceIte, Option.some.injEq] at c1'
+    subst c1'
+    cases r1 with
+    | stop => exact between _ (.next _ _ _ _ _ c1 (.stop _ _))
+    | torn _ _ _ _ j ct =>
+      simp only [Store.call, Option.some.injEq] at ct
+      subst ct
+      rw [hdd]
+      obtain ⟨hL, hT, hF⟩ := torn_write_buf s1 s.h.doff.toNat (encTable s'.rds) j
+        (by rw [encTable_length, hll]; exact htl)
+      obtain ⟨s2, hl, _, hb⟩ := torn_table_loads s W R s' Rn hll hne Cold Cnew s1 _ S1 j hL hT hF
+      exact ⟨s2, hl, hb⟩
+    | next _ a2 _ _ _ c2 r2 =>
+      have c2' := c2
+      simp only [Store.call, Option.some.injEq] at c2'
+      subst c2'
+      cases r2 with
+      | stop => exact between _ (.next _ _ _ _ _ c1 (.next _ _ _ _ _ c2 (.stop _ _)))
+      | next _ a3 _ _ _ c3 r3 =>
+        have c3' := c3
+        simp only [Store.call, Store.seekStart, show ¬ (0 : Int) < 0 by omega, ↓reduceIte,
+          Option.some.injEq] at c3'
+        subst c3'
+        cases r3 with
+        | stop => exact between _ (.next _ _ _ _ _ c1 (.next _ _ _ _ _ c2 (.next _ _ _ _ _ c3 (.stop _ _))))
+        | torn _ _ _ _ j ct =>
+          simp only [Store.call, Option.some.injEq] at ct
+          subst ct
+          have S2 := SyncedAt.table_written s.h s.rds s'.rds s1 S1 h128 hll
+          rw [← hdd] at S2
+          obtain ⟨hL, hT, hF⟩ := torn_write_buf
+            (({ s1 with pos := s'.h.doff.toNat } : Store).write (encTable s'.rds)) 0 (encHdr s'.h) j
+            (by have := S2.hlen; simp only [encHdr_length]; omega)
+          obtain ⟨s2, hl, hr⟩ := torn_header_loads s W R s' M' Rn hdd hll hds hne _ _ S2 j hL hT hF
+          exact ⟨s2, by simpa using hl, fun i d _ hd' => by rw [hr]; exact hd'⟩
+        | next _ a4 _ _ _ c4 r4 =>
+          cases r4 with
+          | stop =>
+            exact between _ (.next _ _ _ _ _ c1 (.next _ _ _ _ _ c2 (.next _ _ _ _ _ c3 (.next _ _ _ _ _ c4 (.stop _ _)))))
+
+/-- **C09, every interruption**: for an image with clean slots, at every interruption of every
+    operation — any prefix of its calls, the last write torn anywhere, the descriptor-table and
+    header writes included — the file loads and every slot the operation leaves alone holds the
+    same descriptor.  (`C09_bystander_content` adds: and the same bytes.) -/
+theorem C09_every_interruption (s : Img) (W : WF s) (P : Placed s) (R : Ranges s) (op : Op) (now : Int)
+    (R' : (plan sha ph s op now).2.2 = .ok → Ranges (plan sha ph s op now).2.1)
+    (hne : s.rds ≠ []) (Cold : CleanSlots s.rds)
+    (st' : Store) (hc : CrashOf s.st (plan sha ph s op now).1 st') :
+    ∃ s2, loadContainer st' = .ok s2 ∧
+      ∀ (i : Nat) (d : RawDesc), s.rds[i]? = some d →
+        ((plan sha ph s op now).2.2 = .ok → (plan sha ph s op now).2.1.rds[i]? = some d) →
+        s2.rds[i]? = some d := by
+  obtain ⟨pre, post, hsplit, hsafe, hpost⟩ := plan_pre_safe sha ph s W P op now
+  obtain ⟨⟨a1, a2⟩, ht⟩ := meta_regions s W
+  rw [hsplit] at hc
+  have old_of : ∀ st2, SyncedAt s.h s.rds st2.buf → ∃ s2, loadContainer st2 = .ok s2 ∧
+      ∀ (i : Nat) (d : RawDesc), s.rds[i]? = some d →
+        ((plan sha ph s op now).2.2 = .ok → (plan sha ph s op now).2.1.rds[i]? = some d) →
+        s2.rds[i]? = some d :=
+    fun st2 S => ⟨_, loads_old s W R st2 S, fun i d hd _ => hd⟩
+  rcases crash_append pre post s.st st' hc with h1 | ⟨s1, hs1, h2⟩
+  · apply old_of
+    apply synced_of_frames s W
+    · exact crash_frame 0 128 (by omega) pre s.st st' a1 (hsafe 0 128 (by omega) a1 a2) h1
+    · intro hne'
+      obtain ⟨b1, b2⟩ := ht hne'
+      exact crash_frame _ _ (by omega) pre s.st st' b1 (hsafe _ _ (by omega) b1 b2) h1
+  · have S1 : SyncedAt s.h s.rds s1.buf := by
+      apply synced_of_frames s W
+      · exact calls_frame 0 128 (by omega) pre s.st s1 a1 (hsafe 0 128 (by omega) a1 a2) hs1
+      · intro hne'
+        obtain ⟨b1, b2⟩ := ht hne'
+        exact calls_frame _ _ (by omega) pre s.st s1 b1 (hsafe _ _ (by omega) b1 b2) hs1
+    rcases hpost with ⟨hp, _⟩ | ⟨hok, hp, hdd, hll⟩
+    · subst hp
+      cases h2
+      exact old_of _ S1
+    · subst hp
+      obtain ⟨s2, hl, hb⟩ := flush_crash_full s W R _ (plan_mem sha ph s (WF.mem s W) op now hok) (R' hok)
+        hdd hll (plan_dsize sha ph s op now) hne Cold (clean_plan sha ph s W Cold op now) s1 st' S1 h2
+      exact ⟨s2, hl, fun i d hd hd' => hb i d hd (hd' hok)⟩
 
 /-- **C09, an I/O error is returned**: if some call of the plan fails, the operation's result is
     the I/O error, and the store is the one the calls before the failure left. -/
